@@ -102,6 +102,10 @@ def c10(pid, tier, replay):
     res.notes["text_to_grammar_predicted"] = len(yl)
     if yl:
         run_parts(res, "TraceYaccParse", yl, dict(PROP="C10"), 1 if replay else (14 if tier == "thorough" else 6), byid, seed)
+    if not replay:
+        # the grammar object at the edge of a narrow index type (sizes, dense numbering, indices in range)
+        from . import p_width
+        p_width.narrow_grammars(res, "C10")
     for i in insts[:2]:
         res.sample(dict(id=i["id"], kind=i["kind"], y=i["y"]))
     res.assumptions += ["documents are generated valid; invalid / near-valid sources are C12's business",
